@@ -33,6 +33,7 @@ Inductive kind :=
 | EWatchStream             (* StartRevision < 0: range stream *)
 | EWatchInvalidKey         (* StartRevision >= 0, key does not start with "/" *)
 | ECompact | EPut | EDeleteRange | ELeaseGrant | ELeaseRevoke | EMemberList
+| ELeaseKeepAlive | ELeaseTimeToLive | ELeaseLeases | EMemberAdd | EMemberRemove | EMemberUpdate | EMemberPromote
 (* brain front-end *)
 | BCreate | BUpdate | BDelete | BCompact
 | BGet | BRange | BCount | BListPartition | BRangeStream | BWatch
@@ -110,6 +111,7 @@ Definition roles_effects (k : kind) (r : role) (proxy : bool) (l : reach) : effe
   (* kv.go:144-158, lease.go, cluster.go *)
   | ECompact | ELeaseGrant | EMemberList => quiet RespOk
   | EPut | EDeleteRange | ELeaseRevoke => quiet RespError
+  | ELeaseKeepAlive | ELeaseTimeToLive | ELeaseLeases | EMemberAdd | EMemberRemove | EMemberUpdate | EMemberPromote => quiet RespError
   (* brain/write.go: checkLeaderWrite; the proxy plays no part in the brain API *)
   | BCreate | BUpdate | BDelete | BCompact =>
       match r with
@@ -148,9 +150,26 @@ Definition overlap_model (r : N) (l : reach) : rclass * list N * N :=
   | SyncSkip => (RespOk, [r], r)
   end.
 
-(* a follower that has already served a read at r1; the leader moves on to r2; a second read of the given kind:
-   it syncs again (sets r2) and is served at r2 *)
-Definition follow_model (r1 r2 : N) : list N * N := ([r1; r2], r2).
+(* one follower node, requests one after the other: its read revision, what the syncer has installed (installRevision
+   drops a fetched revision that is not larger), the SetCurrentRevision values so far.  A request does what its row of
+   the table says; SetCurrentRevision only raises the read revision; a read is answered at the node's read revision. *)
+Record fnode := mkFN { fn_rev : N; fn_synced : N; fn_sets : list N }.
+Definition fn_init : fnode := mkFN 0 0 [].
+Definition fn_apply (e : effects) (s : fnode) : fnode :=
+  match f_set e with
+  | Some v => if fn_synced s <? v then mkFN (N.max (fn_rev s) v) v (fn_sets s ++ [v]) else s
+  | None => s
+  end.
+Definition fn_req (k : kind) (proxy : bool) (l : reach) (s : fnode) : fnode * (rclass * N) :=
+  let e := roles_effects k Follower proxy l in
+  let s' := fn_apply e s in (s', (f_resp e, fn_rev s')).
+
+(* a follower that has served a read at r1; the leader moves on to r2; a second read of the given kind (any mode, any
+   value of the Revision field): every SetCurrentRevision value, and the revision the second read is answered at *)
+Definition follow_model (m : rmode) (v : revsel) (r1 r2 : N) : list N * N :=
+  let s1 := fst (fn_req ERangeList false (ReachOk r1) fn_init) in
+  let '(s2, (_, h)) := fn_req (ERangeAt m v) false (ReachOk r2) s1 in
+  (fn_sets s2, h).
 
 (* taking over (leader.go OnStartedLeading): SetCurrentRevision(version of the lock) runs BEFORE the leader flag
    is stored, so "leader flag => revision installed".  Phases of the node that wins the election: *)
@@ -168,9 +187,14 @@ Definition tk_peer_read (p : tk_phase) (old version : N) : effects :=
 
 (* a follower with the etcd proxy: a transaction it forwards is answered by the leader at revision w, the answer is
    delayed; meanwhile the leader commits up to r and the follower serves a read (syncs: installs r); the answer
-   arrives; a second read.  Forwarding never touches the read revision (roles_effects: f_set = None), so the only
-   SetCurrentRevision is the first read's, and both reads are served at r. *)
-Definition forward_model (w r : N) : list N * N * N := ([r], r, r).
+   arrives; a second read (its fetch finds r again, which installRevision drops).  Forwarding never touches the read
+   revision (roles_effects: f_set = None).  Result: every SetCurrentRevision value, the revisions the two reads are
+   answered at. *)
+Definition forward_model (w r : N) : list N * N * N :=
+  let s1 := fst (fn_req ETxnCreate true (ReachOk w) fn_init) in
+  let '(s2, (_, h1)) := fn_req ERangeList true (ReachOk r) s1 in
+  let '(s3, (_, h2)) := fn_req ERangeList true (ReachOk r) s2 in
+  (fn_sets s3, h1, h2).
 
 (* the outcome vocabulary of DESIGN.md, derived from the effects *)
 Inductive outcome :=
@@ -195,6 +219,21 @@ Definition is_read (k : kind) : bool :=
   | _ => false
   end.
 
+(* the requests that write or open a watch on the store: only the leader serves them *)
+Definition is_write (k : kind) : bool :=
+  match k with
+  | ETxnCreate | ETxnDelete | ETxnUpdate | ETxnCompact | ETxnInvalid | BCreate | BUpdate | BDelete | BCompact => true
+  | _ => false
+  end.
+Definition is_stream (k : kind) : bool := match k with EWatchPure | BWatch => true | _ => false end.
+(* what the etcd proxy of a follower forwards them as (the brain API is not proxied) *)
+Definition etcd_fwd (k : kind) : fwd :=
+  match k with
+  | ETxnCreate | ETxnDelete | ETxnUpdate | ETxnCompact | ETxnInvalid => FTxn
+  | EWatchPure => FWatch
+  | _ => FNone
+  end.
+
 Definition all_kinds : list kind :=
   [ERangeGet; ERangeList; ERangeCount; ERangePartition;
    ERangeAt MGet RvPinned; ERangeAt MGet RvCurrent; ERangeAt MGet RvFuture; ERangeAt MGet RvMagic;
@@ -202,6 +241,7 @@ Definition all_kinds : list kind :=
    ERangeAt MCount RvPinned; ERangeAt MCount RvCurrent; ERangeAt MCount RvFuture; ERangeAt MCount RvMagic;
    ETxnCreate; ETxnDelete; ETxnUpdate; ETxnCompact; ETxnInvalid;
    EWatchPure; EWatchStream; EWatchInvalidKey; ECompact; EPut; EDeleteRange; ELeaseGrant; ELeaseRevoke; EMemberList;
+   ELeaseKeepAlive; ELeaseTimeToLive; ELeaseLeases; EMemberAdd; EMemberRemove; EMemberUpdate; EMemberPromote;
    BCreate; BUpdate; BDelete; BCompact; BGet; BRange; BCount; BListPartition; BRangeStream; BWatch;
    CompactLoopTick; StatusHandler].
 
